@@ -35,7 +35,7 @@ RULE = ("each run is a history of 1-6 client operations (get with/without query,
         "unreadable) and the bytes its peer decrypted plus the order of the pin lookup and the "
         "first application send are checked. distinct = distinct (operation, classification, "
         "reader) vectors; non-trivial = at least one changed or unreadable connection occurred")
-PROBES = ["caller_supplied_ssl_context", "storage_fault_while_client_is_created", "restart_more_than_a_year_later", "client_used_as_context_manager_in_between", "connection_fails_at_accept_first", "ca_validation_on_as_well", "impostor_connection", "unreadable_connection", "impostor_never_reads",
+PROBES = ["client_has_a_client_certificate", "caller_supplied_ssl_context", "storage_fault_while_client_is_created", "restart_more_than_a_year_later", "client_used_as_context_manager_in_between", "connection_fails_at_accept_first", "ca_validation_on_as_well", "impostor_connection", "unreadable_connection", "impostor_never_reads",
           "impostor_lazy", "upload_to_impostor", "redirect_hop_to_impostor", "ordering_checked",
           "large_upload", "sql_fault_during_operation", "overlapping_operations_one_endpoint"]
 COMPONENTS = {
@@ -92,6 +92,10 @@ def run_one(ch):
         c_.minimum_version = _ssl.TLSVersion.TLSv1_2
         own_ctx_kw = {"ssl_context": c_}
         res.stats["caller_supplied_ssl_context"] += 1
+    elif ch.chance("own_client_cert", 0.15):
+        # the client carries a client certificate (the scripted servers do not ask for it)
+        own_ctx_kw = {"client_cert": fx.crt("cli_rsa1"), "client_key": fx.key("cli_rsa1")}
+        res.stats["client_has_a_client_certificate"] += 1
 
     async def main():
         client = GeminiClient(timeout=8.0, tofu_db_path=pathlib.Path(w.db_path), verify_ssl=ca_mode,
@@ -298,6 +302,11 @@ def run_one(ch):
                 # pins may or may not have been written: continue from the real table
                 model.clear()
                 model.update(read_table(w.db_path))
+            # what counts as "verified" for the NEXT operation is what the store really holds now
+            # (an endpoint that never reads, for instance, never sent the redirect the walk
+            # above assumed, so the hop behind it was never contacted nor pinned)
+            model.clear()
+            model.update(read_table(w.db_path))
             new = w.conns_since(marks)
             judged.append((hist[-1], kind, plan, new, got, seam_mark))
 
